@@ -42,6 +42,44 @@ add("C16", True,
     "Trusted: rational arithmetic; dyadic inputs keep the library's f64 arithmetic exact (so equality is exact, no tolerance).",
     "DESIGN.md 6/C16")
 
+PWL_NOTE = "Trusted: exact rational LP with checked certificates (harness/src/lp.rs), the 150-line reference PWL algebra (harness/src/pwl.rs: substitute/then/lift2 on guard structures), label semantics from the documentation (bit i of the label set iff row i satisfied). Dyadic data keep the library's f64 arithmetic exact; cases needing more than 50 mantissa bits are skipped and counted."
+add("C02", True,
+    "property-based testing (proptest): generated operand trees; the composed tree is DECIDED equal to the reference composition on all full-dimensional cells by exact LP refinement, plus exact boundary inputs via evaluate()",
+    "For every generated pair (f,g) - K in {2,4}, total/partial/leaf-rooted operands, arena layouts with holes, hyperplanes of g planted through f(anchor) - the result of compose<false> (and apply_func) is compared with the reference composition cell by cell (every full-dimensional intersection of a result cell with a reference cell must carry identical affine maps or both be undefined), which decides equality almost everywhere for that pair; exact boundary inputs decide closed/open sides and definedness; g must be bit-identical afterwards and f's nodes keep index, parent and (for decisions) content. Exploration over bounded sizes (dims <= 3, depth <= 4).",
+    PWL_NOTE, "DESIGN.md 6/C02")
+add("C03", True,
+    "property-based testing over generated operation histories (proptest): after every pruning op the tree is decided equal to the unpruned reference on all full-dimensional cells (exact LP), boundary inputs under the stated thin rule, vanished nodes audited by exact feasibility",
+    "Histories produce fresh and cached feasibility states; after infeasible_elimination, compose<true> (also compared with compose<false> of the same operands) and tree+-tree the function must equal the unpruned reference (thin rule only for boundary inputs); after an elimination every vanished terminal / lost branch of a skipped decision must have a region without a ball of radius 1e-6 and a skipped decision must not have had a reachable missing branch. Exploration: histories <= 8 ops, dims <= 3.",
+    PWL_NOTE + " Thin = no ball of radius 1e-6 inside the box |x| <= 1e6.", "DESIGN.md 6/C03")
+add("C04", True,
+    "stateful property-based testing (proptest): generated constructor + operation histories interpreted against a dimension-tracking model; invariant after every step on the raw arena",
+    "Every generated history (all constructors; apply_func, compose pruned/unpruned with schema or generated total/partial trees, elimination, reduce, tree and affine arithmetic in all variants) must complete without panic and leave a well-formed tree after every step (column counts, common terminal output dimension equal to the model's, rows allowed by K, leaf <=> no children, mirrored links, reachability); while the reference function is tracked it is compared too. Exploration: <= 16 ops.",
+    "Trusted: the dimension-tracking interpreter in harness/src/hist.rs; raw-arena well-formedness predicate in harness/src/pwl.rs.", "DESIGN.md 6/C04")
+add("C05", True,
+    "stateful property-based testing (proptest): after every history step all cached witnesses/verdicts are audited against exact path polytopes; mirror_points fuzzed directly with an exact membership oracle",
+    "After every step of generated histories each stored witness (converted exactly) must satisfy every exact path condition of its node (rebuilt from raw parent links) within the documented 1e-8 tolerance, and no node marked Infeasible may have a region containing a ball of radius 1e-6; mirror_points is called on generated polytopes/start points and every returned column must lie in the polytope. Exploration.",
+    "Trusted: exact path reconstruction from raw links; tolerance 1e-8 + 1e-12 relative for the rounding of a.w.", "DESIGN.md 6/C05")
+add("C06", True,
+    "property-based testing over generated total-tree pipelines (proptest) with an independent exact feasibility oracle for every surviving node and a brute-force region count of the unpruned twin",
+    "For pipelines of apply_func / compose (pruned, unpruned) / elimination on total trees: after every elimination no surviving non-root node may have an exactly empty closed path polytope (exact LP; margin made explicit), no non-root decision a single branch, a second run must leave the arena bit-identical with 0 infeasible LPs, and the final terminal count must lie between the number of regions with a 1e-6 ball and the number of regions not empty by a margin of the unpruned composition. Exploration: <= 10 ops, dims <= 3.",
+    PWL_NOTE + " Known finding C06/single_branch_after_rejected_lp_witness is excluded only when the affected node is still Indeterminate.", "DESIGN.md 6/C06")
+add("C07", True,
+    "property-based testing (proptest): every operator variant's result is decided equal to the coefficient-wise lifting of the reference operands on all full-dimensional cells (exact LP) plus exact boundary inputs",
+    "For generated operand pairs (total/partial, shared anchors) all four operators in four ownership variants, negation and twelve affine-on-either-side forms are compared with the reference lifting (operand order respected), cell by cell and at boundary inputs (thin rule only for the tree-tree operators, which prune on the fly). Exploration: dims <= 3, depth <= 4.",
+    PWL_NOTE, "DESIGN.md 6/C07")
+add("C08", True,
+    "property-based testing (proptest): reduce() vs original function decided on all cells (exact LP) + index-exact reference reduction model + idempotence",
+    "Generated trees with terminal pools and near-copies: the reduced tree must denote the same function (no exemption), not grow, be a fixed point of reduce, contain no identical terminal siblings below the root, and equal an independent index-exact reference reduction (which also shows that siblings differing in one coefficient or bias are kept). Exploration: depth <= 5.",
+    PWL_NOTE, "DESIGN.md 6/C08")
+add("C09", True,
+    "property-based testing (proptest): polyhedra()/polyhedra_iter() streams vs reference traversal and raw path conditions; routing of exact boundary and interior points; pairwise interior-disjointness by exact LP",
+    "For generated trees (total/partial, holes) the reported stream must equal depth-first order with depth/sibling counters and half-spaces rebuilt from raw parent links, also after generated skip_subtree scripts; find_terminal's labels must lead to the returned node and agree with exact predicate evaluation (closed side = label 1) at inputs on hyperplanes; inputs satisfy all reported conditions of their path; exact interior points of every reported polytope are routed through the node; terminal regions have no common interior point; total trees are defined everywhere. Exploration: depth <= 5, dims <= 3.",
+    PWL_NOTE, "DESIGN.md 6/C09")
+add("C17", True,
+    "property-based testing (proptest): each predefined tree is decided equal to its textbook definition on all full-dimensional cells (exact LP) and evaluated at inputs planted on breakpoints and ties",
+    "Every schema generator in dims 1..8 with every row/class and dyadic parameters is compared with an independently written textbook reference (guards + affine pieces) cell by cell and at inputs whose relevant component is a breakpoint or a breakpoint +- small steps (argmax/class: 3-letter alphabet, ties everywhere); from_poly with/without else; from_slice+compose+remove_axes against T(embed(y)). Exploration over bounded dims.",
+    PWL_NOTE + " Hard sigmoid (1/6) compared with 1e-12 tolerance.", "DESIGN.md 6/C17")
+
 PENDING_REASON = "check not built yet in this round (planned; see DESIGN.md Appendix D) - no claim is made"
 
 ALL = ["C%02d" % i for i in range(1, 20)]
